@@ -1,7 +1,7 @@
 from harness.props import base
-from harness import preds
+from harness import preds, streams
 LEVEL = 'proof'
-VFILES = ['Lines.v', 'Tok.v', 'TokTiles.v', 'TokPos.v', 'Engine.v', 'ParseKeeps.v', 'Properties/C03.v']
+VFILES = ['Lines.v', 'Tok.v', 'TokTiles.v', 'TokPos.v', 'Engine.v', 'ParseKeeps.v', 'EndPos.v', 'Properties/C03.v']
 TECHNIQUE = ('Coq invariant proof over the Gallina port of tokenize_lines (every non-block token starts at the text offset its line/column names, '
              'BOM zero-width, for all inputs) + proof that the engine (incl. error recovery) keeps the text-carrying tokens as the leaves in order '
              '+ lines/tok/parse correspondence + positions_true predicate search')
@@ -10,7 +10,7 @@ EXPLANATION = ('Proved for all inputs on the pipeline model (Properties/C03.v): 
                '(line, column) relative to the line list (lines numbered from start line, a BOM at the very start has zero width; multi-line strings and f-string '
                'parts keep the position where they started); ParseKeeps.parse_keeps_leaves - the text-carrying leaves of the tree returned by the engine are '
                'exactly the text-carrying tokens, in order, with the same value, prefix and position, in both modes including error recovery; together '
-               'C03_leaf_positions. Not modelled in Coq (partial): end_pos of leaves / start and end of nodes (computed properties in tree.py), the module end, '
+               'C03_leaf_positions; EndPos.end_pos_is_walk - the model of Leaf.end_pos (split_lines of the value) is the position reached by walking the value from the start position counting exactly \\n, \\r\\n and \\r as line breaks (tied to tree.py by the endpos stream). Not modelled in Coq (partial): start and end of nodes (computed properties in tree.py), the module end, '
                'get_start_pos_of_prefix, and the placement of zero-width error leaves; these are checked by the positions_true predicate on implementation trees '
                'and by the tok/parse correspondence (positions are part of the canonical token/tree form).')
 LEVEL_TEXT = EXPLANATION
@@ -21,4 +21,7 @@ def pred(v, code, m):
 
 
 def run(ctx, b, drv):
+    pend0 = base.Pending(ctx)
+    base.mismatches(ctx, pend0, streams.run_endpos(ctx, base.scale(ctx, 600), drv), lambda case: 'C03:end_pos-is-not-the-walk-of-the-value')
+    pend0.flush()
     base.std_text_check(ctx, b, drv, VFILES, ['lines', 'tok', 'parse'], pred, 2500, 1500, 'c03')
